@@ -11,7 +11,8 @@ TABLE = [
     ("C08", r"solout", r"exact_zero", ["event_function_scale"]),
     ("C08", r"solout", r"events\.|process\.|detect\.", ["events_multi_in_step"]),
     ("C05", r"solout", r"teval\.", ["tiny_time_scale", "teval_terminal"]),
-    ("C03", r"dispatch_A", r"zero_length|skipped", ["tiny_time_scale"]),
+    ("C03", r"dispatch_A", r"zero_length|skipped", ["tiny_time_scale", "zero_length_dense"]),
+    ("C06", r"dispatch", r".*", ["zero_length_dense", "sol_at_every_sample"]),
     ("C06", r"cont_R", r".*", ["tiny_time_scale", "sol_at_every_sample"]),
     ("C03", r"dispatch_R", r"first_output|handler", ["first_step_sign_and_overshoot"]),
     ("C11", r"dispatch_R", r"first_output|handler", ["first_step_sign_and_overshoot"]),
